@@ -22,9 +22,17 @@ import (
 type Program struct {
 	Opts    Options  `json:"opts"`
 	History []Letter `json:"history"`
+	// ConsLimit > 0: the consumer is created with WithMemoryLimit(ConsLimit)
+	ConsLimit uint64 `json:"cons_limit,omitempty"`
 }
 
-func (p Program) String() string { return unitKey(Unit{Opts: p.Opts, History: p.History}, len(p.History)-1) }
+func (p Program) String() string {
+	s := unitKey(Unit{Opts: p.Opts, History: p.History}, len(p.History)-1)
+	if p.ConsLimit > 0 {
+		s += fmt.Sprintf(" [consumer limit %d]", p.ConsLimit)
+	}
+	return s
+}
 
 type progRun struct {
 	p    Program
@@ -36,7 +44,11 @@ type progRun struct {
 }
 
 func newProgRun(p Program) *progRun {
-	return &progRun{p: p, prod: arrow_record.NewProducerWithOptions(p.Opts.build()...), cons: arrow_record.NewConsumer()}
+	var copts []arrow_record.Option
+	if p.ConsLimit > 0 {
+		copts = append(copts, arrow_record.WithMemoryLimit(p.ConsLimit))
+	}
+	return &progRun{p: p, prod: arrow_record.NewProducerWithOptions(p.Opts.build()...), cons: arrow_record.NewConsumer(copts...)}
 }
 
 func barSig(bar *colarspb.BatchArrowRecords) string {
@@ -148,6 +160,13 @@ func pairPrograms(thorough bool) []Program {
 			}
 		}
 	}
+	// programs whose consumer carries its own options come last: the solo runs
+	// of the default consumers above are taken before any of these exists
+	for _, sig := range sigs() {
+		a := historyAlphabet(sig, false)
+		ps = append(ps, Program{Opts: DefaultOptions(), History: []Letter{a[2], a[1]}, ConsLimit: 1024},
+			Program{Opts: DefaultOptions(), History: []Letter{a[2], a[1]}, ConsLimit: 1 << 20})
+	}
 	return ps
 }
 
@@ -200,6 +219,9 @@ func pairWorker(tier string, shard, nshard int) *WorkerOut {
 	for a := range ps {
 		for b := a; b < len(ps); b++ {
 			tuples = append(tuples, []int{a, b})
+			if ps[b].ConsLimit > 0 && ps[a].ConsLimit == 0 {
+				tuples = append(tuples, []int{b, a}) // the consumer with options is constructed first
+			}
 		}
 	}
 	if thorough {
